@@ -83,6 +83,8 @@ using PropFn = std::function<void(Case&)>;
 // meets one counts it (counter "known:<sig>"), excludes that case from the oracle and goes on.
 inline std::set<std::string>& known_sigs() { static std::set<std::string> s; return s; }
 inline bool is_known(Stats& st, const std::string& sig) {
+  static const bool collect = getenv("VF_COLLECT_SIGS") != nullptr;   // triage aid: list every failing signature without stopping
+  if (collect) { st.cnt("collected:" + sig); return true; }
   if (known_sigs().count(sig)) { st.cnt("known:" + sig); return true; }
   return false;
 }
